@@ -320,10 +320,26 @@ def run(tier, seed, which="C05"):
     for n in ([1015, 1016, 1017] if tier == "quick" else list(range(1008, 1024)) + [2039, 2040, 2041]):
         seqs = gen.family(rng, n, 12, gen.DNA, sub=0.1, indel=0.0)
         extra.append(dict(kinds=["fasta with %d records" % n], bytes=kv.fasta([("r%d" % i, s) for i, s in enumerate(seqs)]).encode(), many=n))
+    # compositions that stress the guide tree of 100 or more sequences (bisecting k-means): large groups of identical sequences
+    # beside a few others make clusters empty, centroids equal and distances tie
+    for (copies, others, L, alpha) in ([(110, 25, 40, gen.AA), (100, 1, 30, gen.DNA), (99, 30, 30, gen.DNA), (128, 2, 25, gen.DNA)] if tier == "quick" else
+                                       [(c, o, L, a) for c in (99, 100, 101, 110, 128, 200, 300) for o in (1, 2, 25, 60) for (L, a) in ((40, gen.AA), (30, gen.DNA))]):
+        base = gen.rand_seq(rng, alpha, L) + ("LKEF" if alpha == gen.AA else "")
+        rel = [gen.mutate(rng, base, alpha, 0.2, 0.05) for _ in range(others)]
+        seqs = [base] * copies + rel
+        rng.shuffle(seqs)
+        extra.append(dict(kinds=["%d copies + %d relatives" % (copies, others)], bytes=kv.fasta([("r%d" % i, s_) for i, s_ in enumerate(seqs)]).encode(), many="%d copies + %d relatives" % (copies, others)))
+    for (g1, g2, L) in ([(100, 100, 30)] if tier == "quick" else [(100, 100, 30), (150, 120, 20), (100, 3, 15)]):
+        b1, b2 = gen.rand_seq(rng, gen.DNA, L), gen.rand_seq(rng, gen.DNA, L)
+        seqs = [b1] * g1 + [b2] * g2
+        rng.shuffle(seqs)
+        extra.append(dict(kinds=["two groups of copies"], bytes=kv.fasta([("r%d" % i, s_) for i, s_ in enumerate(seqs)]).encode(), many="%d + %d copies of two sequences" % (g1, g2)))
     run_files(V, wd, files, "gen")
     # these get their own script: all three writers
     edir = os.path.join(wd, "many")
     os.makedirs(edir, exist_ok=True)
+
+    hung = [0]
 
     def many(k):
         p = os.path.join(edir, "m%d.fa" % k)
@@ -332,14 +348,20 @@ def run(tier, seed, which="C05"):
         for f in ("fasta", "msf", "clu"):
             lines.append("write 0 %s %s" % (f, os.path.join(edir, "m%d.%s" % (k, f))))
         lines += ["free 0", "note done%d" % k]
-        tp, rc, err = kv.run_kvdrive("\n".join(lines) + "\n", edir, "m%d" % k, variant="san", leaks=True, timeout=300, hang_is_verdict="retry")
+        # a run of a few seconds: a short first budget, and the repetition alone (three times the budget) only for the first two
+        # runs that do not finish, so that a tree that hangs on every one of them still gets its verdict in minutes
+        budget = 300 if isinstance(extra[k]["many"], int) else 60
+        mode = "retry" if hung[0] < 2 else True
+        tp, rc, err = kv.run_kvdrive("\n".join(lines) + "\n", edir, "m%d" % k, variant="san", leaks=True, timeout=budget, hang_is_verdict=mode)
+        if rc == 124:
+            hung[0] += 1
         return k, rc, err
     for k, rc, err in kv.pmap(many, range(len(extra)), workers=8):
-        V.case("many:%d" % extra[k]["many"], True)
+        V.case("many:%s" % extra[k]["many"], True)
         if rc != 0 or SAN_PAT.search(err):
             first = [x for x in err.splitlines() if "ERROR: " in x or "runtime error" in x]
             mm = re.search(r"(msa_io|msa_op|msa_alloc|alphabet|bpm|aln_\w+)\.c:(\d+)", err)
-            V.violation("%d records written as fasta/msf/clu: exit %d %s" % (extra[k]["many"], rc, first[0][:200] if first else ""), kv.save_replay("C05", "many%d" % k, [os.path.join(edir, "m%d.fa" % k)]),
+            V.violation("%s records written as fasta/msf/clu: exit %d %s" % (extra[k]["many"], rc, first[0][:200] if first else ""), kv.save_replay("C05", "many%d" % k, [os.path.join(edir, "m%d.fa" % k)]),
                         dict(kind="memory", where="%s.c:%s" % (mm.group(1), mm.group(2)) if mm else "", records=extra[k]["many"]))
         else:
             V.traces += 1
